@@ -763,24 +763,40 @@ def check_partial_consumption(run, rule, f, cfg, reviewed, select=None):
         if err is not None or not any(k == "writer" for k in t.sinks.values()) or (select is not None and not select(name)):
             continue
         pnames = [p for p, _ in t.params]
+        idiom = head_tail_calls(t.body)
         for x in walk(t.body):
+            # the same element access written as a method: `xs.first()`, `xs.get(0)`, `xs.iter().next()` - canonicalised to `xs[k]`
+            if x.get("k") == "mcall" and id(x) not in idiom and x.get("name") in ("first", "get", "next"):
+                recv = H.peel_ref(x["recv"])
+                k_ = None
+                if x["name"] == "first" and not x.get("args"):
+                    k_ = 0
+                elif x["name"] == "get" and len(x.get("args") or []) == 1 and H.peel_ref(x["args"][0]).get("k") == "lit":
+                    k_ = H.peel_ref(x["args"][0])["lit"]["v"]
+                elif x["name"] == "next" and not x.get("args") and recv.get("k") == "mcall" and recv.get("name") in ("iter", "into_iter") and not recv.get("args"):
+                    k_ = 0
+                    recv = H.peel_ref(recv["recv"])
+                bt = (f.ty(x.get("recv_ty")) or "") if x["name"] != "next" else "[]"
+                if k_ is not None and isinstance(k_, int) and ("Vec<" in bt or bt.lstrip("&").startswith("[")):
+                    x = {"k": "index", "idx": {"k": "lit", "lit": {"t": "int", "v": k_}}, "base": recv, "base_ty": None, "sp": x.get("sp"), "_canon": "%s[%d]" % (T.text(recv), k_)}
             if x.get("k") == "index":
                 idx = H.peel_ref(x["idx"])
                 base = H.peel_ref(x["base"])
-                bt = f.ty(x.get("base_ty")) or ""
+                bt = (f.ty(x.get("base_ty")) or "") if not x.get("_canon") else "[]"
                 if idx.get("k") == "lit" and idx["lit"]["t"] == "int" and ("Vec<" in bt or bt.lstrip("&").startswith("[")):
                     root = base
                     while isinstance(root, dict) and root.get("k") == "field":
                         root = H.peel_ref(root["base"])
                     if isinstance(root, dict) and root.get("k") == "local" and root.get("name") in pnames:
                         n += 1
-                        key = "%s:%s" % (name, T.text(x))
+                        xtext = x.get("_canon") or T.text(x)
+                        key = "%s:%s" % (name, xtext)
                         if _diverges_on_longer(t.body, T.text(base)):
-                            run.ob(rule, "partial:%s" % key, True, "%s renders `%s` and refuses (panics) when the list has more elements" % (name.rsplit("::", 1)[-1], T.text(x)),
+                            run.ob(rule, "partial:%s" % key, True, "%s renders `%s` and refuses (panics) when the list has more elements" % (name.rsplit("::", 1)[-1], xtext),
                                    sp=x.get("sp"), cfg=cfg)
                             continue
                         run.ob(rule, "partial:%s" % key, key in reviewed,
-                               "%s renders only `%s` of a list%s" % (name.rsplit("::", 1)[-1], T.text(x), (": " + reviewed[key]) if key in reviewed else
+                               "%s renders only `%s` of a list%s" % (name.rsplit("::", 1)[-1], xtext, (": " + reviewed[key]) if key in reviewed else
                                                                    " - further elements the builder was given are dropped"), sp=x.get("sp"), cfg=cfg)
     return n
 
